@@ -34,6 +34,7 @@ def gen_data_params(rng, *, n_files=None, small=False, tie_free=True, level_cols
         "lower_better": None,
         "strong": None,
         "nan_feature": rng.choice([0, 0, 0, 1, 3]),
+        "top_decoys": 0,  # set by C08 only: decoys that outscore every target (costs acceptance at small sizes)
         # jointly modelled files of unequal size (a per-file share of a training cap can exceed a small file)
         "size_factors": [1.0] + [rng.choice([1.0, 0.6, 0.4]) for _ in range(n_files - 1)] if n_files > 1 else None,
     }
@@ -61,6 +62,16 @@ def build_tables(dp):
             file_id=f,
             dup_scan_frac=dp.get("dup_scan_frac", 0.0),
         )
+        if dp.get("top_decoys"):
+            # a few decoys that outscore every target (the best-ranked entries of a level are then decoys)
+            r3 = random.Random(f"topdecoy|{dp['data_seed']}|{f}")
+            cols = t["columns"]
+            li = cols.index("Label")
+            fcols = [cols.index(c) for c in cols if c.startswith("feat")]
+            decoys = [ri for ri, row in enumerate(t["rows"]) if not (row[li] is True or row[li] == 1)]
+            for k, ri in enumerate(r3.sample(decoys, min(len(decoys), dp["top_decoys"]))):
+                for ci in fcols:
+                    t["rows"][ri][ci] = float(f"{9.0 + k + r3.random():.6f}")
         if dp.get("nan_feature"):
             # a feature with a few missing values, placed after the tag column so that the tag's position among the
             # parsed features does not depend on whether it is dropped; a faithful parse always drops it
@@ -101,6 +112,7 @@ class PipelineResult:
         self.descs = None
         self.models = None
         self.files = {}
+        self.files2 = {}
         self.listing = []
         self.sched = None
         self.fs = None
@@ -167,7 +179,7 @@ def run_pipeline(tables, cfg, workdir, name, fmt="pin", row_group=None, sched_de
             )
             res.models = list(models)
             res.raw_scores = list(scores)
-            res.scores = [np.asarray(s, dtype=float).reshape(-1) for s in scores]
+            res.scores = [np.array(s, dtype=float, copy=True).reshape(-1) for s in scores]
             res.descs = list(descs)
             if stop_after == "brew" or not cfg.get("confidence"):
                 return res
@@ -181,13 +193,14 @@ def run_pipeline(tables, cfg, workdir, name, fmt="pin", row_group=None, sched_de
             prefixes = conf.get("prefixes")
             if prefixes is None:
                 prefixes = [None] if len(paths) == 1 else [f"f{i}" for i in range(len(paths))]
+            conf_scores = scores if cfg.get("raw_conf_scores") else [np.asarray(s, dtype=float).reshape(-1) for s in scores]
+            conf_descs = descs
             mokapot.assign_confidence(
                 psms=list(psms),
                 max_workers=cfg["max_workers"],
-                # C07 hands brew's return value to assign_confidence untouched, as the CLI does
-                scores=list(scores) if cfg.get("raw_conf_scores") else
-                [np.asarray(s, dtype=float).reshape(-1) for s in scores],
-                descs=list(descs),
+                # C07 hands brew's return value to assign_confidence untouched (the same list objects), as the CLI does
+                scores=conf_scores,
+                descs=conf_descs,
                 eval_fdr=cfg["test_fdr"],
                 dest_dir=dest,
                 prefixes=prefixes,
@@ -197,6 +210,21 @@ def run_pipeline(tables, cfg, workdir, name, fmt="pin", row_group=None, sched_de
                 proteins=proteins,
                 rng=cfg["seed"],
             )
+            if cfg.get("confidence_twice"):
+                # a second report from the very same objects (scores/descs as returned by brew) into another directory
+                dest2 = root / "out2"
+                os.makedirs(dest2, exist_ok=True)
+                res.stage = "assign_confidence_again"
+                mokapot.assign_confidence(
+                    psms=list(psms), max_workers=cfg["max_workers"],
+                    scores=conf_scores, descs=conf_descs, eval_fdr=cfg["test_fdr"], dest_dir=dest2, prefixes=prefixes,
+                    decoys=conf.get("decoys", True), deduplication=conf.get("dedup", True), do_rollup=conf.get("rollup", True),
+                    proteins=proteins, rng=cfg["seed"],
+                )
+                for f2 in sorted(os.listdir(dest2)):
+                    if (dest2 / f2).is_file():
+                        with open(dest2 / f2, "rb") as fh:
+                            res.files2[f2] = fh.read()
             res.stage = "done"
         except (Exception, SystemExit) as exc:  # noqa: BLE001  (triqler calls sys.exit on degenerate input)
             res.exc = exc
